@@ -21,8 +21,8 @@ SPEC_OPS = None
 
 TIERS = {
     #            symtab hist len, symtab invariant len, random programs, TLC bound (bytes of code), VM step limit
-    "quick":    dict(symlen=6, syminv=8, nrandom=800, maxtlc=2500, limit=6000, scaled_max=7000, batch=45000),
-    "thorough": dict(symlen=7, syminv=14, nrandom=14000, maxtlc=30000, limit=30000, scaled_max=10 ** 9, batch=60000),
+    "quick":    dict(symscaled=[3, 300], symlen=6, syminv=8, nrandom=800, maxtlc=2500, limit=6000, scaled_max=7000, batch=45000),
+    "thorough": dict(symscaled=[3, 300, 70000], symlen=7, syminv=11, nrandom=5000, maxtlc=30000, limit=30000, scaled_max=10 ** 9, batch=60000),
 }
 
 JAVA = ["-XX:ParallelGCThreads=2", "-XX:CICompilerCount=2"]
@@ -75,27 +75,64 @@ def symtab_invariants(chk, cfg):
 
 
 def symtab_cases(chk, cfg):
-    res = common.run_tlc("Symtab", "SymtabHist.cfg", defines={"MAXOPS": cfg["symlen"]},
-                         workers=6, timeout=1500, name="Symtab-hist", java_opts=JAVA)
+    parts = [0] if cfg["symlen"] <= 6 else [1, 2, 3, 4]
+
+    def job(part):
+        return lambda: common.run_tlc("Symtab", "SymtabHist.cfg", defines={"MAXOPS": cfg["symlen"], "PART": part},
+                                      workers=4, timeout=1500, name="Symtab-hist%d" % part, java_opts=JAVA)
+    rs = _par([job(p) for p in parts], 2)
+    res = rs[0]
+    for r in rs[1:]:
+        res.cases += r.cases
+        res.distinct += r.distinct
+        res.generated += r.generated
+        res.wall = max(res.wall, r.wall)
     if not res.cases:
         raise HarnessError("Symtab.tla produced no histories")
     return res
 
 
+# histories are kept in the compact form Symtab.tla prints:
+# [op, name, found, scope, index], op 1 push 2 pop 3 define 4 resolve, scope 1 GLOBAL 2 LOCAL
 def sym_class(c):
     depth = 0
     maxd = 0
     for o in c["ops"]:
-        if o["op"] == "push":
+        if o[0] == 1:
             depth += 1
             maxd = max(maxd, depth)
-        elif o["op"] == "pop" and depth > 0:
+        elif o[0] == 2 and depth > 0:
             depth -= 1
-    nloc = sum(1 for o in c["ops"] if o["op"] == "def" and o["scope"] == "LOCAL")
-    return "symtab/depth=%d/localdefs=%d" % (maxd, nloc)
+    nloc = sum(1 for o in c["ops"] if o[0] == 3 and o[3] == 2)
+    return "depth=%d/localdefs=%d" % (maxd, nloc)
+
+
+def sym_show(c):
+    names = " abcdefgh"
+    out = []
+    for o in c["ops"]:
+        t = ["", "push", "pop", "define", "resolve"][o[0]]
+        if o[0] >= 3:
+            t += " " + names[o[1]] + (" -> %s %d" % (["", "GLOBAL", "LOCAL"][o[3]], o[4]) if o[2] else " -> not found")
+        out.append(t)
+    return out
 
 
 SYMBATCH = 200
+
+
+def scaled_histories(cfg):
+    """One scope with n distinct variables (n beyond the 16-bit slot operand in
+    the thorough tier).  Expected slots by the rule of Symtab.tla's Define
+    (k-th fresh name of a scope gets index k-1): TLC cannot enumerate a
+    70000-step history, the rule is extrapolated."""
+    out = []
+    for n in cfg["symscaled"]:
+        for local in (False, True):
+            ops = ([[1, 0, 0, 0, 0]] if local else []) + [[3, k, 1, 2 if local else 1, k - 1] for k in range(1, n + 1)]
+            out.append(({"ops": ops, "globals": 0 if local else n, "maxlocal": n - 1 if local else -1},
+                        "scaled/%s=%d" % ("locals" if local else "globals", n)))
+    return out
 
 
 def symtab_work(chk, cfg):
@@ -127,6 +164,20 @@ def symtab_work(chk, cfg):
             x = rs[c["id"]]
             h = {k: v for k, v in c.items() if k not in ("id", "stage")}
             out.append((h, c["stage"], x["ok"], x.get("diff", ""), (x.get("obs") or {}).get("status", "compiled")))
+    # size-scaled scopes
+    sc = scaled_histories(cfg)
+    singles = []
+    for j, (h, cls) in enumerate(sc):
+        singles.append(dict(h, id="symscaled-%d-s" % j, stage="c17sym"))
+        singles.append(dict(h, id="symscaled-%d-r" % j, stage="c17render"))
+    rs = common.replay(singles, deadline="240s", name="c17symscaled")
+    for j, (h, cls) in enumerate(sc):
+        small = {"ops": h["ops"] if len(h["ops"]) < 100 else [], "regen": cls, "globals": h["globals"], "maxlocal": h["maxlocal"],
+                 "class_override": cls}
+        for suffix, stage in (("s", "c17sym"), ("r", "c17render")):
+            x = rs["symscaled-%d-%s" % (j, suffix)]
+            out.append((small, stage, x["ok"], ("crash: " if x.get("crash") or x.get("timeout") else "") + (x.get("diff") or ""),
+                        (x.get("obs") or {}).get("status", "compiled")))
     common.log("C17: Symtab TLC %.1fs, %d histories replayed (API + rendered) in %.1fs" % (res.wall, len(hs), time.time() - t0))
     return res, out
 
@@ -142,15 +193,13 @@ def symtab_account(chk, res, out):
             nren += 1
         chk.evaluations += 1
         chk.traces += 1
-        if any(o["scope"] == "LOCAL" for o in h["ops"]):
-            chk.nontrivial.add(stage + ":" + json.dumps(h["ops"]))
+        if any(o[3] == 2 for o in h["ops"]):
+            chk.nontrivial.add(hash(stage + ":" + json.dumps(h["ops"])))
         if not ok:
-            cls = ("render/" if stage == "c17render" else "") + sym_class(h)
-            chk.mismatch(cls, diff, {"case": dict(h, id="sym-replay", stage=stage, **{"class": cls})})
+            cls = ("render/" if stage == "c17render" else "symtab/") + (h.get("class_override") or sym_class(h))
+            chk.mismatch(cls, diff, {"case": dict(h, id="sym-replay", stage=stage, **{"class": cls}), "history": sym_show(h)})
     mid = res.cases[len(res.cases) // 2]
-    chk.sample({"symtab_history": [(o["op"] + (" " + o["n"] if o["n"] else "") +
-                                    (" -> %s %d" % (o["scope"], o["index"]) if o["op"] in ("def", "res") and o["found"] else ""))
-                                   for o in mid["ops"]], "expect_globals": mid["globals"], "expect_maxlocal": mid["maxlocal"]})
+    chk.sample({"symtab_history": sym_show(mid), "expect_globals": mid["globals"], "expect_maxlocal": mid["maxlocal"]})
     chk.extra["symtab_histories"] = len(res.cases)
     chk.extra["symtab_histories_rendered_as_programs"] = nren
     if nren == 0:
@@ -418,7 +467,7 @@ def run(chk):
     tier = chk.tier if chk.tier in TIERS else "quick"
     cfg = dict(TIERS[tier])
     for k in list(cfg):                      # development overrides, e.g. C17_NRANDOM=100
-        if os.environ.get("C17_" + k.upper()):
+        if os.environ.get("C17_" + k.upper()) and isinstance(cfg[k], int):
             cfg[k] = int(os.environ["C17_" + k.upper()])
     common.build_harness()
     t0 = time.time()
@@ -467,6 +516,10 @@ def replay_one(data):
         for k, v, f in c17gen.scaled("thorough"):
             if k == name:
                 case["src"] = v
+    if case.get("class_override"):
+        for h, cls in scaled_histories({"symscaled": [3, 300, 70000]}):
+            if cls == case["class_override"]:
+                case["ops"] = h["ops"]
     stage = case.get("stage")
     bad = False
     if stage in ("c17sym", "c17render", "c17run"):
